@@ -5,6 +5,7 @@
 import FtProofs.Lemmas.TrafficBasic
 import FtProofs.Lemmas.TrafficTools
 import FtProofs.Lemmas.TrafficBuffet
+import FtProofs.Lemmas.TrafficSched
 set_option linter.unusedSectionVars false
 set_option linter.unusedSimpArgs false
 set_option linter.unusedVariables false
@@ -247,6 +248,161 @@ example :
     fillsSpec 1 accs = 2 ∧ writebacksSpec 1 accs = 1 ∧
     (buffet1 1 32 accs).reads = 64 ∧ (buffet1 1 32 accs).writes = 32 := by
   decide
+
+/-! ## several bindings -/
+
+/-- `_bufferTraffic` consumes the bindings' traces in (padded stamp, binding position) order; this
+    order is an interleaving, and with the buffet callbacks the state of binding `i` after the run
+    is the state of a run over binding `i`'s rows alone (the shared occupancy only feeds the
+    overflow counter). -/
+theorem buffet_bindings_independent (L ls : Nat) (cap : Option Nat) (evictEnds : List Nat)
+    (traces : List (List Acc)) (i : Nat) (hi : i < traces.length) :
+    (buffetRun L evictEnds ls cap traces).bs.getD i {} =
+      buffet1 (evictEnds.getD i 0) ls (traces.getD i []) := by
+  unfold buffetRun buffet1
+  have := (bg_proj evictEnds ls cap i (schedule L traces) { bs := traces.map (fun _ => {}) }
+    (by simpa using hi)).1
+  rw [this, schedule_proj]
+  congr 1
+  simp [List.getD_eq_getElem?_getD, hi]
+
+/-- hence the per-binding charges of a multi-binding buffet run -/
+theorem buffet_fills_all (L ls : Nat) (cap : Option Nat) (evictEnds : List Nat)
+    (traces : List (List Acc)) (i : Nat) (hi : i < traces.length)
+    (hn : nextOkB (traces.getD i []) = true) (hc : winContigB (evictEnds.getD i 0) (traces.getD i []) = true) :
+    ((buffetRun L evictEnds ls cap traces).bs.getD i {}).reads
+        = ls * fillsSpec (evictEnds.getD i 0) (traces.getD i []) ∧
+    ((buffetRun L evictEnds ls cap traces).bs.getD i {}).writes
+        = ls * writebacksSpec (evictEnds.getD i 0) (traces.getD i []) := by
+  rw [buffet_bindings_independent L ls cap evictEnds traces i hi]
+  exact ⟨buffet_fills _ ls _ hn hc, buffet_writebacks _ ls _ hn hc⟩
+
+example :
+    let t0 : List Acc := accsOf [true] [true] 1 none [⟨[0], [3], 3, false⟩, ⟨[1], [3], 3, false⟩]
+    let t1 : List Acc := accsOf [false, true] [false, true] 1 none
+      [⟨[0, 0], [3, 1], 1, false⟩, ⟨[1, 0], [3, 1], 1, false⟩]
+    (schedule 2 [t0, t1]).map (·.1) = [0, 1, 0, 1] ∧
+    ((buffetRun 2 [0, 1] 32 (some 0) [t0, t1]).bs.map (·.reads)) = [32, 64] := by decide
+
+/-! ## hence: never below one fill per distinct line, never above one per access -/
+
+theorem fillsFrom_le (e : Nat) : ∀ (seen : List GKey) (accs : List Acc),
+    fillsFrom e seen accs ≤ (accs.filter (fun a => !a.isWrite)).length
+  | _, [] => Nat.le_refl _
+  | seen, a :: rest => by
+    have := fillsFrom_le e (a.gkey e :: seen) rest
+    simp only [fillsFrom, List.filter_cons]
+    cases a.isWrite
+    · simp only [Bool.not_false, Bool.and_true, if_true, List.length_cons]
+      split <;> omega
+    · simpa using this
+
+theorem distinct_le_fillsFrom (e : Nat) : ∀ (accs : List Acc) (seenP : List (List Nat)) (seen : List GKey),
+    (∀ k ∈ seen, k.1 ∈ seenP) → distinctFirstReads seenP accs ≤ fillsFrom e seen accs
+  | [], _, _, _ => Nat.le_refl _
+  | a :: rest, seenP, seen, h => by
+    have ih := distinct_le_fillsFrom e rest (a.point :: seenP) (a.gkey e :: seen) (by
+      intro k hk
+      rcases List.mem_cons.1 hk with rfl | hk
+      · exact List.mem_cons_self
+      · exact List.mem_cons_of_mem _ (h k hk))
+    simp only [distinctFirstReads, fillsFrom]
+    by_cases hp : a.point ∈ seenP
+    · simp [List.contains_iff_mem, hp]; omega
+    · have : a.gkey e ∉ seen := fun hk => hp (h _ hk)
+      simp [List.contains_iff_mem, hp, this]; omega
+
+theorem wbFrom_le (e : Nat) : ∀ (sd : List GKey) (accs : List Acc),
+    wbFrom e sd accs ≤ (accs.filter (fun a => a.wb)).length
+  | _, [] => Nat.le_refl _
+  | sd, a :: rest => by
+    simp only [wbFrom, List.filter_cons]
+    cases hwb : a.wb
+    · simpa using wbFrom_le e sd rest
+    · have := wbFrom_le e (a.gkey e :: sd) rest
+      simp only [if_true, List.length_cons]
+      split <;> omega
+
+/-- Buffet traffic bounds: at least one fill for every distinct line whose first access is a read
+    (in a read-only trace: every distinct line touched), at most one per read access; at most one
+    write-back per written-back access. -/
+theorem buffet_traffic_bounds (e ls : Nat) (accs : List Acc)
+    (hn : nextOkB accs = true) (hc : winContigB e accs = true) :
+    ls * distinctFirstReads [] accs ≤ (buffet1 e ls accs).reads ∧
+    (buffet1 e ls accs).reads ≤ ls * (accs.filter (fun a => !a.isWrite)).length ∧
+    (buffet1 e ls accs).writes ≤ ls * (accs.filter (fun a => a.wb)).length := by
+  rw [buffet_fills e ls accs hn hc, buffet_writebacks e ls accs hn hc]
+  exact ⟨Nat.mul_le_mul_left _ (distinct_le_fillsFrom e accs [] [] (by simp)),
+         Nat.mul_le_mul_left _ (fillsFrom_le e [] accs),
+         Nat.mul_le_mul_left _ (wbFrom_le e [] accs)⟩
+
+/-! ## traffic depends only on line-granular positions -/
+
+/-- two combined traces that agree on stamps, coordinates, access kind, the LINE of every position
+    and its side of the shape (staging or not) -/
+def LineEquiv (epl : Nat) (shape : Option Nat) : List CRow → List CRow → Prop
+  | [], [] => True
+  | r :: rs, r' :: rs' =>
+    (r.stamp = r'.stamp ∧ r.coords = r'.coords ∧ r.isWrite = r'.isWrite ∧
+      r.pos / epl = r'.pos / epl ∧ (∀ s, shape = some s → (r.pos < s ↔ r'.pos < s)))
+      ∧ LineEquiv epl shape rs rs'
+  | _, _ => False
+
+/-- … are the same sequence of accesses for the simulation, for either policy, any bindings, any
+    capacity: everything downstream of `accsOf` is literally equal. -/
+theorem line_granular (mask : List Bool) (epl : Nat) (shape : Option Nat) :
+    ∀ (rows rows' : List CRow), LineEquiv epl shape rows rows' →
+      accsOf mask mask epl shape rows = accsOf mask mask epl shape rows' := by
+  intro rows rows' h
+  unfold accsOf
+  rw [nextuse_correct, nextuse_correct]
+  have hline : ∀ (r r' : CRow), r.coords = r'.coords → r.pos / epl = r'.pos / epl →
+      r.line mask epl = r'.line mask epl := by
+    intro r r' h1 h2; simp [CRow.line, linePoint, h1, h2]
+  -- the first later row on a given line carries the same stamp in both traces
+  have hfind : ∀ (l l' : List CRow), LineEquiv epl shape l l' → ∀ p,
+      (l.find? (fun x => decide (x.line mask epl = p))).map (·.stamp)
+        = (l'.find? (fun x => decide (x.line mask epl = p))).map (·.stamp) := by
+    intro l
+    induction l with
+    | nil => intro l' hl p; cases l' with
+      | nil => rfl
+      | cons _ _ => exact absurd hl (by simp [LineEquiv])
+    | cons r rs ih =>
+      intro l' hl p
+      cases l' with
+      | nil => exact absurd hl (by simp [LineEquiv])
+      | cons r' rs' =>
+        obtain ⟨⟨h1, h2, _, h4, _⟩, hrest⟩ := hl
+        simp only [List.find?_cons, hline r r' h2 h4]
+        by_cases hp : r'.line mask epl = p
+        · simp [hp, h1]
+        · simp only [hp, decide_false]; exact ih rs' hrest p
+  induction rows generalizing rows' with
+  | nil => cases rows' with
+    | nil => rfl
+    | cons _ _ => exact absurd h (by simp [LineEquiv])
+  | cons r rs ih =>
+    cases rows' with
+    | nil => exact absurd h (by simp [LineEquiv])
+    | cons r' rs' =>
+      obtain ⟨⟨h1, h2, h3, h4, h5⟩, hrest⟩ := h
+      simp only [nextUseSpec, List.map_cons, List.cons.injEq]
+      refine ⟨?_, ih rs' hrest⟩
+      have hl := hline r r' h2 h4
+      have hf := hfind rs rs' hrest (r'.line mask epl)
+      cases shape with
+      | none => simp only [mkAcc, hl, h1, h3, hf]
+      | some s =>
+        have e1 : decide (r.pos < s) = decide (r'.pos < s) := decide_eq_decide.2 (h5 s rfl)
+        have e2 : decide (s ≤ r.pos) = decide (s ≤ r'.pos) := by
+          have := h5 s rfl
+          simp only [decide_eq_decide]
+          constructor <;> intro hh <;> omega
+        simp only [mkAcc, hl, h1, h3, hf, e1, e2]
+
+example : LineEquiv 4 (some 6) [⟨[0], [1], 1, true⟩, ⟨[1], [7], 7, true⟩] [⟨[0], [1], 3, true⟩, ⟨[1], [7], 6, true⟩] := by
+  simp [LineEquiv]
 
 end Traffic
 end Ft
